@@ -884,7 +884,13 @@ func genC03(seed uint64, tier Tier) *Case {
 	if g.r.Bool(0.25) {
 		// one transient read error on the index file while the caches are being refilled: the request that hits it
 		// may fail; what it loaded (or failed to load) must not stay in the caches as a wrong answer
-		c.Faults = append(c.Faults, &simos.Fault{Group: 7, Op: "read", Action: "eio", PathSuffix: ".index", Nth: g.r.Range(1, 12)})
+		// (or on the documents file: a fetch fails and the store goes on; what the failed request gave back, and how
+		// often, shows in the requests after it)
+		suffix := []string{".index", ".index", ".sdocs"}[g.r.Intn(3)]
+		if suffix == ".sdocs" && c.Knobs.SkipSortDocs {
+			suffix = ".docs"
+		}
+		c.Faults = append(c.Faults, &simos.Fault{Group: 7, Op: "read", Action: "eio", PathSuffix: suffix, Nth: g.r.Range(1, 12)})
 		c.Steps = append(c.Steps, Step{Kind: "stop"}, Step{Kind: "start"}, Step{Kind: "arm", Group: 7},
 			// the battery itself runs into the error: a request may fail, an answer that is given has to be complete
 			Step{Kind: "validate", Label: "during-read-error"},
